@@ -1,7 +1,7 @@
 /-
 C01 pillar 4, second half: validity of loom's independence assumptions against the reference
-interleaving semantics `Spec/SC.lean` — commutation of the pairs loom never orders, and the two
-pairs for which the assumption is wrong (findings F10, F7).
+interleaving semantics `Spec/SC.lean` — commutation of the pairs loom never orders, and the
+non-commuting pairs of findings F10 (`Inspect`/`RefDec`: since repaired, loom orders them) and F7.
 -/
 import LoomVerif.Spec.SC
 
